@@ -3,6 +3,7 @@ import KrakenModel.Model.OriginWB
 import KrakenModel.Proof.C31
 import KrakenModel.Proof.C30Live
 import KrakenModel.Proof.RetryLift
+import KrakenModel.Proof.C31Live
 /-
   C31  An acknowledged origin upload reaches the backend before local deletion.
   Statements are about `Model.OriginWB` (commit / conflict path, writeBack, write-back executor,
@@ -260,6 +261,56 @@ theorem eventually_in_backend (dig : Key → Digest) (s : State) (hi : Inv dig s
       rw [l2]; exact hcache
     simp only [step, hrun]
     exact runExecutor_up_backend dig _ _ _ k hcache'
+
+/-- **C31 (4b) eventually in the backend, without a restart.**  In every state satisfying the invariant
+in which the retry manager is running, for every acknowledged upload that is not yet in its backend
+there is a continuation that consists only of steps the running system takes on its own — pending
+writeBack calls finishing their channel send, poller / worker steps, clock ticks, executor runs against
+a reachable backend — after which it is.  No process restart is needed: no such state is live-locked.
+(`AddingOk`: an Add between its store call and its send belongs to a writeBack call parked there —
+holds in every reachable state, `good_addingOk_run`.) -/
+theorem eventually_in_backend_running (dig : Key → Digest) (s : State) (hi : Inv dig s) (ha : AddingOk s)
+    (hc : Retry.WFCfg s.r.cfg) (hup : s.r.mode = .up) (k : Key) (hk : k ∈ s.acked) (hnb : k ∉ s.backend) :
+    ∃ cont : List Op, (∀ o ∈ cont, (∃ x, o = .wbStep x) ∨ (∃ r, o = .retry r) ∨ ∃ k', o = .exec k' true) ∧
+      k ∈ (cont.foldl (step dig) s).backend := by
+  rcases hi.acked k hk with h | ⟨hcache, _, hstored⟩
+  · exact absurd h hnb
+  obtain ⟨ops, hsys, p, hp⟩ := Retry.can_reach_exec s.r hi.good hup hc k hstored
+  obtain ⟨l1, l2, _, l4⟩ := liftRun_spec dig ops hsys s hi.good ha
+  refine ⟨liftRun dig ops s ++ [.exec k true], ?_, ?_⟩
+  · intro o ho
+    rcases List.mem_append.mp ho with ho | ho
+    · exact l4 o ho
+    · simp at ho; subst ho; exact Or.inr (Or.inr ⟨k, rfl⟩)
+  · simp only [List.foldl_append, List.foldl_cons, List.foldl_nil]
+    have hrun : Retry.placeOf ((liftRun dig ops s).foldl (step dig) s).r.own k = some (.running p) := by
+      rw [l1]; exact hp
+    have hcache' : dig k ∈ ((liftRun dig ops s).foldl (step dig) s).cache := by
+      rw [l2]; exact hcache
+    simp only [step, hrun]
+    exact runExecutor_up_backend dig _ _ _ k hcache'
+
+/-- the same for the states reached by the histories of the partial theorem -/
+theorem eventually_in_backend_no_restart (dig : Key → Digest) (hinj : ∀ k k', dig k = dig k' → k = k')
+    (cfg : Retry.Config) (hc : Retry.WFCfg cfg) (ops : List Op) (hw : WF dig cfg ops)
+    (hup : (run dig cfg ops).r.mode = .up) (k : Key) (hk : k ∈ (run dig cfg ops).acked)
+    (hnb : k ∉ (run dig cfg ops).backend) :
+    ∃ cont : List Op, (∀ o ∈ cont, (∃ x, o = .wbStep x) ∨ (∃ r, o = .retry r) ∨ ∃ k', o = .exec k' true) ∧
+      k ∈ (run dig cfg (ops ++ cont)).backend := by
+  have hcfg : (run dig cfg ops).r.cfg = cfg := run_cfg dig cfg ops
+  obtain ⟨cont, h1, h2⟩ := eventually_in_backend_running dig (run dig cfg ops) (inv_always dig hinj cfg ops hw)
+    (good_addingOk_run dig cfg ops).2 (by rw [hcfg]; exact hc) hup k hk hnb
+  exact ⟨cont, h1, by simpa [run, List.foldl_append] using h2⟩
+
+-- non-vacuity of (4b): an acknowledged upload waiting in the incoming channel while another writeBack call
+-- is parked between its Add's store call and its send (manager running, no restart in the continuation)
+def parkedHistory : List Op :=
+  [.upload 0 0, .wbStep 0, .wbStep 0, .wbStep 0, .wbStep 0, .wbStep 0, .upload 1 0, .wbStep 1, .wbStep 1]
+example : WF id cfg1 parkedHistory := by decide
+example : (run id cfg1 parkedHistory).acked = [0] ∧ (run id cfg1 parkedHistory).backend = [] ∧
+    (run id cfg1 parkedHistory).r.mode = .up ∧
+    Retry.placeOf (run id cfg1 parkedHistory).r.own 1 = some .adding ∧
+    (run id cfg1 parkedHistory).wb = [⟨1, 0, .enq⟩] := by decide
 
 -- non-vacuity: an ordinary history (upload, failed write-back while the backend is down, deletion
 -- refused, forced cleanup that cannot write back, restart, retry, write-back, deletion) is covered by
